@@ -265,6 +265,9 @@ class C21(Check):
 
     def run_shard(self, tier, seed, shard, nshards):
         res = ShardResult()
+        if not jitlab.shard_enabled(shard):
+            res.dropped["shard-not-selected(VERIF_ONLY_SHARDS)"] += 1
+            return res
         cfgs = [c for c in itertools.product(ML, MEPC, CACHE, BMAX) if c != REF] if tier == "thorough" \
             else pairwise_configs()
         res.exhaustive["config-product-per-program"] = (tier == "thorough")
